@@ -619,7 +619,17 @@ class Engine(object):
             if fn in self.funcs:
                 args = [self.ev(a, st, pc) for a in e.args]
                 kw = {k.arg: self.ev(k.value, st, pc) for k in e.keywords}
-                return self.inline_merge(self.funcs[fn], args, kw, st, pc, e)
+                n_obl = len(self.obls)
+                try:
+                    return self.inline_merge(self.funcs[fn], args, kw, st, pc, e)
+                except Unsupported as ex:
+                    if 'heap effects' not in str(ex) or self.mode != 'B':
+                        raise
+                    del self.obls[n_obl:]
+                    # a module-level helper that allocates, called inside an expression: executed as a callee of its own
+                    # (single path - forks requested inside it re-execute the enclosing statement)
+                    paths = self.in_expr(self.callee_paths, self.funcs[fn], args, kw, st, pc, e)
+                    return self.adopt_single(paths, st, pc, fn)
         raise Unsupported("call to %s at line %d" % (fn, e.lineno))
 
     def in_expr(self, fn, *a):
@@ -1134,6 +1144,22 @@ class Engine(object):
                     x = z3.If(x, z3.IntVal(1), z3.IntVal(0))
                 r = arith('+', r, x)
             return r
+        if self.mode == 'P' and isinstance(a, (ArrV, LazyArr)):
+            # assumed contract of np.sum over a sequence of symbolic length: the finite sum, named SIGMA(summand, length)
+            k = z3.Int('ks!sum%d' % node.lineno)
+            e0 = st.elem(a, k)
+            if isinstance(e0, bool) or (is_z3(e0) and e0.sort() == B):
+                # sum of a boolean sequence = number of true entries: assumed contract  r >= 0, r <= length and
+                # (r > 0  <=>  some entry is true) - all that `sum(mask) > 0` needs
+                r = fresh('count', I)
+                inr = z3.And(k >= 0, k < toI(a.n))
+                pc.assume(z3.And(r >= 0, r <= toI(a.n)))
+                pc.assume((r > 0) == z3.Exists([k], z3.And(inr, toB(e0))))
+                return r
+            t, f = split(e0)
+            if f is not True:
+                self.oblige("finite-summands:np.sum@%d" % node.lineno, pc, z3.ForAll([k], z3.Implies(z3.And(k >= 0, k < toI(a.n)), toB(f))))
+            return SIGMA(z3.Lambda([k], toR(t)), toI(a.n))
         raise Unsupported("np.sum over symbolic length (needs a Sigma model)")
     bi_sum = bi_np_sum
 
@@ -1174,6 +1200,8 @@ class Engine(object):
         n = arith('-', hi, lo)
         if step != 1:
             if not isinstance(n, int):
+                if self.mode == 'P' and isinstance(step, int) and step > 1:
+                    return self.store_strided_P(a, lo, hi, step, src, st, pc, node)
                 raise Unsupported("strided store of symbolic length")
             n = (n + step - 1) // step
         scalar = not isinstance(src, (ArrV, LazyArr, list, tuple))
@@ -1211,6 +1239,36 @@ class Engine(object):
         elif f is not True:
             self.oblige("finite-store:%s@%d" % (b.name, node.lineno), pc,
                         z3.ForAll([k], z3.Implies(inside, f)))
+        st.heap[a.buf] = nb
+
+    def store_strided_P(self, a, lo, hi, step, src, st, pc, node):
+        """a[lo:hi:step] = src for symbolic bounds (P mode): cell lo + q*step receives src[q]"""
+        self.check_frame(a.buf, st, pc, node)
+        b = st.heap[a.buf]
+        if b.is_list() or a.stride != 1:
+            raise Unsupported("strided store into a concrete / strided buffer")
+        lo_, hi_ = toI(lo), toI(hi)
+        cnt = z3.If(hi_ > lo_, (hi_ - lo_ + (step - 1)) / step, z3.IntVal(0))       # integer division: number of cells written
+        scalar = not isinstance(src, (ArrV, LazyArr))
+        if not scalar:
+            self.oblige("slice-store-shape:%s@%d" % (ast.unparse(node)[:40], node.lineno), pc, cnt == toI(src.n))
+        new = fresh(b.name.split('@')[0] or 'sl', ARR)
+        k = fresh('ks', I)
+        base = toI(arith('+', a.off, lo))
+        top = toI(arith('+', a.off, hi))
+        q = (k - base) / step
+        sv = src if scalar else st.elem(src, q)
+        t, f = split(sv)
+        hit = z3.And(base <= k, k < top, (k - base) % step == 0)
+        pc.assume(z3.ForAll([k], z3.Select(new, k) == z3.If(hit, toR(t), z3.Select(b.data, k))))
+        nb = b.clone()
+        nb.data = new
+        if b.fin is not None:
+            nf = fresh('fin', FARR)
+            pc.assume(z3.ForAll([k], z3.Select(nf, k) == z3.If(hit, toB(f), z3.Select(b.fin, k))))
+            nb.fin = nf
+        elif f is not True:
+            self.oblige("finite-store:%s@%d" % (b.name, node.lineno), pc, z3.ForAll([k], z3.Implies(hit, f)))
         st.heap[a.buf] = nb
 
     def assign(self, tgt, val, st, pc):
